@@ -17,8 +17,11 @@
      proj o          (ob_rpc, ob_status, ob_fh, type/perm/nlink/size/fileid of every attribute block, ob_bytes,
                       fileid/name/cookie/attribute projection/handle of every entry, ob_eof); times, uid, gid, wcc excluded
      strip t         t with both caches emptied;  hrun_ref = the run that strips before every request (cache-free reference)
-     c02_req r       every request except SYMLINK (side condition), SETATTR and WRITE (data/attribute procedures of other
-                     properties; SETATTR compares node uid/gid, which a cache hit may fill differently)
+     c02_req r       every request except SYMLINK (the side condition) and SETATTR (it compares the uid/gid/times held in
+                     the node - unprojected fields a cache hit may fill differently - to decide whether to call
+                     Chown/Chtimes, so the two runs may differ in o_uid/o_gid/o_mtime; SETATTR still preserves the
+                     invariant: C02_good_step_all).  WRITE, READ, ACCESS, COMMIT, FSSTAT/FSINFO/PATHCONF, NULL, MKNOD,
+                     LINK and the administrative actions are all included.
 
    Why the side condition cannot be dropped (kernel-checked: C02_transparent_unrestricted_refuted).  The caches are keyed
    by path; a symbolic link to a directory makes two paths name one object.  MNT refuses paths through a link, but a STALE
@@ -62,6 +65,8 @@ Theorem C02_good_init : forall f c mx t, WF f -> nolinks f -> Good (srv_init_fs 
 Proof. exact Good_init. Qed.
 Theorem C02_good_step : forall s c r, Good s -> c02_req r = true -> Good (fst (step s c r)).
 Proof. exact Good_step. Qed.
+Theorem C02_good_step_all : forall s c r, Good s -> inv_req r = true -> Good (fst (step s c r)).
+Proof. exact Good_step_all. Qed.
 Theorem C02_good_hist : forall l s, Good s -> c02_hist l -> Forall (fun so => Good (fst so)) (hrun s l).
 Proof. exact Good_hist. Qed.
 
@@ -152,6 +157,14 @@ Theorem C02_posix_rename : forall s c h1 n1 h2 n2 d1 d2 da1 da2, Good s -> ro (c
   (ob_status (snd so) = 0 -> fs (fst so) = if path_eqb op np then fs s else renamed (fs s) op np (now s)) /\
   (ob_status (snd so) <> 0 -> fs (fst so) = fs s).
 Proof. exact posix_rename. Qed.
+Theorem C02_posix_getattr : forall s c h p a, Good s -> lookup_node s h = Some (p, a) ->
+  let so := step s c (RGetattr h) in
+  (ob_status (snd so) = 0 <-> fs_get (fs s) p <> None) /\ fs (fst so) = fs s.
+Proof. exact posix_getattr. Qed.
+Theorem C02_posix_readdir : forall s c h ck cnt d da, Good s -> lookup_node s h = Some (d, da) -> na_kind da = KDir ->
+  let so := step s c (RReaddir h ck cnt) in
+  (ob_status (snd so) = 0 <-> kd (fs s) d = true) /\ fs (fst so) = fs s.
+Proof. exact posix_readdir. Qed.
 (* the trees named above are the backend operations' results, exactly *)
 Theorem C02_backend_specs : forall f, WF f -> nolinks f ->
   (forall p perm t, nodd p -> exists e, be_mkdir f p perm t =
@@ -231,6 +244,7 @@ Print Assumptions C02_statement_refuted.
 Print Assumptions C02_resolve_closed_form.
 Print Assumptions C02_good_init.
 Print Assumptions C02_good_step.
+Print Assumptions C02_good_step_all.
 Print Assumptions C02_good_hist.
 Print Assumptions C02_transparent_step.
 Print Assumptions C02_transparent.
@@ -244,6 +258,8 @@ Print Assumptions C02_posix_remove.
 Print Assumptions C02_removable_iff.
 Print Assumptions C02_posix_rmdir.
 Print Assumptions C02_posix_rename.
+Print Assumptions C02_posix_getattr.
+Print Assumptions C02_posix_readdir.
 Print Assumptions C02_backend_specs.
 Print Assumptions C04_lookup_blocks_lookup.
 Print Assumptions C04_lookup_blocks_mkdir.
